@@ -11,7 +11,7 @@
 (*   <<"fmt", n, d>>   the text Color BASIC prints for the number n/d       *)
 (*   <<"sym", 0, 0>>   a value this specification does not compute          *)
 (*                     (transcendental, device dependent, out of range)     *)
-(*   <<"undef", 0, 0>> contents of a BASIC09 variable never assigned        *)
+(*   <<"undef", x, 0>> contents of BASIC09 variable x, never assigned        *)
 (*   <<"err", c, 0>>   evaluation raised run-time error class c (a string)  *)
 (* TLC integers are 32 bit: every rational whose numerator or denominator   *)
 (* leaves [-Lim, Lim] degrades to "sym" (unjudged), never to a wrong value. *)
@@ -25,7 +25,8 @@ RECURSIVE Gcd(_, _)
 Gcd(a, b) == IF b = 0 THEN a ELSE Gcd(b, a % b)
 
 Sym == <<"sym", 0, 0>>
-Undef == <<"undef", 0, 0>>
+Undef == <<"undef", "", 0>>
+UndefOf(name) == <<"undef", name, 0>>
 Err(c) == <<"err", c, 0>>
 Str(s) == <<"str", s, 0>>
 Bool(b) == <<"bool", IF b THEN 1 ELSE 0, 0>>
